@@ -1180,3 +1180,45 @@ Section BBoxLaws.
       apply Hleast; try assumption. intros y Hy. apply Hv. right. exact Hy.
   Qed.
 End BBoxLaws.
+
+(** * small corollaries stated in Props/C16.v *)
+Lemma intersection_pixel_set (u : pbox) (ps : list pbox) :
+  (0 <= pnx u)%Z -> (0 <= pny u)%Z ->
+  (forall i, in_cols u i <-> (forall p, In p ps -> in_cols p i)) ->
+  (forall j, in_rows u j <-> (forall p, In p ps -> in_rows p j)) ->
+  (forall i j, in_pix u i j <-> (forall p, In p ps -> in_pix p i j)) /\
+  ((pnx u = 0 \/ pny u = 0)%Z <-> (forall i j, ~ in_pix u i j)).
+Proof.
+  intros Hx Hy Hc Hr. split.
+  - intros i j. unfold in_pix. rewrite Hc, Hr. split.
+    + intros (A & B) p Hp. auto.
+    + intros H. split; intros p Hp; apply (H p Hp).
+  - unfold in_pix, in_cols, in_rows. split.
+    + intros [E | E] i j; lia.
+    + intros H. destruct (Z.eq_dec (pnx u) 0) as [E | E]; [auto|].
+      destruct (Z.eq_dec (pny u) 0) as [E' | E']; [auto|].
+      exfalso. apply (H (px u) (py u)). lia.
+Qed.
+
+Lemma binary_ops_rejected_iff (crs : Type) (crs_eqb : crs -> crs -> bool) (atol rtol tol : Q) (fx : fixes)
+      (a b : geobox crs) :
+  is_ok (gbox_or crs_eqb atol rtol tol a b) =
+    is_ok (bbox_in_pix crs_eqb atol rtol tol a a) && is_ok (bbox_in_pix crs_eqb atol rtol tol b a) /\
+  is_ok (gbox_and crs_eqb atol rtol tol a b) =
+    is_ok (bbox_in_pix crs_eqb atol rtol tol a a) && is_ok (bbox_in_pix crs_eqb atol rtol tol b a) /\
+  is_ok (overlap_roi crs_eqb fx atol rtol tol a b) = is_ok (bbox_in_pix crs_eqb atol rtol tol b a).
+Proof.
+  split; [apply gbox_or_ok_bool|]. split; [apply gbox_and_ok_bool | apply overlap_roi_ok_bool].
+Qed.
+
+Lemma qbox_comm_both (crs : Type) (crs_eqb : crs -> crs -> bool) (a b u v : bbox crs Q) :
+  (qbox_or crs_eqb a b = Ok u -> qbox_or crs_eqb b a = Ok v -> box_eq u v) /\
+  (qbox_and crs_eqb a b = Ok u -> qbox_and crs_eqb b a = Ok v -> box_eq u v).
+Proof. split; [apply qbox_or_comm | apply qbox_and_comm]. Qed.
+
+Lemma qbox_assoc_both (crs : Type) (crs_eqb : crs -> crs -> bool) (a b c ab l bc r : bbox crs Q) :
+  (qbox_or crs_eqb a b = Ok ab -> qbox_or crs_eqb ab c = Ok l ->
+   qbox_or crs_eqb b c = Ok bc -> qbox_or crs_eqb a bc = Ok r -> box_eq l r) /\
+  (qbox_and crs_eqb a b = Ok ab -> qbox_and crs_eqb ab c = Ok l ->
+   qbox_and crs_eqb b c = Ok bc -> qbox_and crs_eqb a bc = Ok r -> box_eq l r).
+Proof. split; [apply qbox_or_assoc | apply qbox_and_assoc]. Qed.
